@@ -321,6 +321,76 @@ func abs64(x int64) int64 {
 	return x
 }
 
+// many terms: term counts around every plausible internal limit (fixed-size
+// scratch, 8-bit counters), with the receiver aliased to a late term
+type manyCase struct {
+	Routine string `json:"routine"`
+	N       int    `json:"n"`
+	Scalars string `json:"scalars"` // "one", "l-1", "alternating", "generic"
+	Points  string `json:"points"`  // "B", "distinct", "mixed", "same-pointer"
+	RecvAt  int    `json:"recv_at"` // -1: fresh receiver; i: the receiver is the point of term i
+}
+
+var subC01Many = core.NewSub("C01/many-terms", func(w *core.Worker, c manyCase) *core.Fail {
+	B := ref.Base()
+	T := ref.Torsion()
+	var sc []*edwards25519.Scalar
+	var ps []*edwards25519.Point
+	var same *edwards25519.Point
+	want := ref.Identity()
+	for i := 0; i < c.N; i++ {
+		var kv *big.Int
+		switch c.Scalars {
+		case "one":
+			kv = big.NewInt(1)
+		case "l-1":
+			kv = new(big.Int).Sub(ref.L, big.NewInt(1))
+		case "alternating":
+			kv = []*big.Int{big.NewInt(1), new(big.Int).Sub(ref.L, big.NewInt(1)), big.NewInt(0), big.NewInt(8)}[i%4]
+		default:
+			kv = ref.SRed(new(big.Int).Add(alpha.GenericScalar, big.NewInt(int64(i*i))))
+		}
+		var pm ref.Pt
+		switch c.Points {
+		case "B", "same-pointer":
+			pm = B
+		case "distinct":
+			pm = ref.Mul(big.NewInt(int64(i+2)), B)
+		default:
+			pm = ref.Add(T[i%8], ref.Mul(big.NewInt(int64(i%5+1)), B))
+		}
+		sc = append(sc, mkScalar(kv))
+		if c.Points == "same-pointer" {
+			if same == nil {
+				same = alpha.MakePoint(pm, 6)
+			}
+			ps = append(ps, same)
+		} else {
+			ps = append(ps, alpha.MakePoint(pm, []int{0, 6, 3}[i%3]))
+		}
+		want = ref.Add(want, ref.Mul(kv, pm))
+	}
+	recv := new(edwards25519.Point)
+	if c.RecvAt >= 0 && c.RecvAt < c.N {
+		recv = ps[c.RecvAt]
+	}
+	var ret *edwards25519.Point
+	if c.Routine == "MultiScalarMult" {
+		ret = recv.MultiScalarMult(sc, ps)
+	} else {
+		ret = recv.VarTimeMultiScalarMult(sc, ps)
+	}
+	if ret != recv {
+		return core.Failf("%s did not return the receiver", c.Routine)
+	}
+	e := ref.Encode(want)
+	w.Distinct("nontrivial:results", e[:])
+	if f := pointMatches(recv, want); f != nil {
+		return core.Failf("%s with %d terms (scalars %s, points %s, receiver at term %d): %s", c.Routine, c.N, c.Scalars, c.Points, c.RecvAt, f.Msg)
+	}
+	return nil
+})
+
 func init() { register("C01", "model_checking", runC01) }
 
 func runC01(ctx *core.Ctx) {
@@ -427,6 +497,32 @@ func runC01(ctx *core.Ctx) {
 		}
 	}
 	subC01Mult.RunList(ctx, cases)
+	var mc []manyCase
+	ns := []int{4, 7, 8, 9, 15, 16, 17, 31, 32, 33, 63, 64, 65, 127, 128, 129, 255, 256, 257}
+	if !ctx.Quick() {
+		ns = append(ns, 511, 512, 513, 1024)
+	}
+	for _, r := range []string{"MultiScalarMult", "VarTimeMultiScalarMult"} {
+		for _, n := range ns {
+			for si, sp := range []string{"one", "l-1", "alternating", "generic"} {
+				for pi, pp := range []string{"B", "distinct", "mixed", "same-pointer"} {
+					if n > 64 && (si+pi)%2 == 1 && ctx.Quick() {
+						continue
+					}
+					mc = append(mc, manyCase{r, n, sp, pp, -1})
+					if pp != "same-pointer" {
+						mc = append(mc, manyCase{r, n, sp, pp, n - 1}, manyCase{r, n, sp, pp, n / 2})
+						if n > 8 {
+							mc = append(mc, manyCase{r, n, sp, pp, 8})
+						}
+					} else {
+						mc = append(mc, manyCase{r, n, sp, pp, 0})
+					}
+				}
+			}
+		}
+	}
+	subC01Many.RunList(ctx, mc)
 
 	// shim-level
 	if shimAvailable {
